@@ -153,6 +153,8 @@ def true_value(tree, env, t, vol):
         return None
     if track.get("minstep", math.inf) <= 1e-6:
         return None
+    if track.get("root_of_zero"):
+        return None            # see vf/ref.py: outside the finite domain (valid rewrites of the formula are undefined there)
     if track.get("minabs", math.inf) < 1e-100:
         return None            # a non-zero intermediate this small underflows in double precision: range limit
     M = track.get("maxabs", 0.0)
@@ -275,6 +277,8 @@ def check(case):
             exp = _unsupported_value(name, tv[0])
             if exp is None or (name in ("floor", "ceiling", "mod") and abs(tv[0] - round(tv[0])) < 1e-6):
                 continue
+            if name == "sqrt" and tv[0] <= 1e-9:
+                continue        # root of exactly zero: outside the finite domain (see true_value)
             xs = np.array([pt["species"][s] for s in species], dtype=float)
             ps = np.array([pt["params"][p] for p in params], dtype=float)
             got = float(term.py_evaluate(xs, ps, pt["t"]))
